@@ -29,7 +29,7 @@ def install(ctx):
 def cases(ctx):
     rng = ctx.rng
     for i in range(ctx.n(1400, 5000)):
-        mode = str(rng.choice(["perm", "gauss", "separated", "inverted", "ties", "touching", "ulp", "tiny", "uint", "int8wide", "mixed", "huge", "huge", "subnormal", "negzero", "clustered", "clustered", "manyeasy", "manyeasy", "manyeasy"]))
+        mode = str(rng.choice(["perm", "gauss", "separated", "inverted", "ties", "touching", "ulp", "tiny", "uint", "int8wide", "mixed", "huge", "huge", "subnormal", "negzero", "clustered", "clustered", "manyeasy", "manyeasy", "manyeasy", "lopsided", "lopsided"]))
         npos = int(rng.integers(1, 26))
         nneg = int(rng.integers(1, 26))
         if mode == "tiny":
@@ -37,6 +37,13 @@ def cases(ctx):
             mode2 = "perm"
         else:
             mode2 = mode
+        if mode2 == "lopsided":
+            # a dense class against a sparse one with very uneven gaps (heavy tails): the rate grids of the two classes do not nest
+            nd, ns = int(rng.integers(40, 160)), int(rng.integers(3, 12))
+            dense = rng.normal(0.0, 1.0, nd)
+            sparse = np.concatenate([rng.standard_cauchy(ns - 1) * float(rng.choice([1.0, 10.0, 100.0])), [float(rng.normal(0, 1))]])
+            pos, neg = (dense, sparse) if rng.random() < 0.5 else (sparse, dense)
+            mode2 = "_done"
         if mode2 == "manyeasy":
             npos, nneg = int(rng.integers(1, 12)), int(rng.integers(1, 12))
             mode2 = str(rng.choice(["perm", "gauss", "inverted", "inverted"]))
@@ -57,7 +64,7 @@ def cases(ctx):
             pos, neg, _ = gen.scores(rng, 1, 1, maxn=20, kinds=[{"mixed": "mixed_int_float"}.get(mode2, mode2)])
         elif mode2 == "touching":
             pos, neg, _ = gen.scores(rng, 1, 1, maxn=12, kinds=["touching"])
-        else:  # classes one ulp apart
+        elif mode2 == "ulp":  # classes one ulp apart
             base = float(rng.choice([1.0, 3.0, 0.1, 2.5, -1.0, 1e-3, 1024.0]))
             lo, hi = base, float(np.nextafter(base, np.inf))
             k1, k2 = int(rng.integers(0, 3)), int(rng.integers(0, 3))
